@@ -53,6 +53,9 @@
 -/
 import Proofs.GenTables
 import Proofs.C02
+import Proofs.Lemmas.WalkTop
+import Proofs.Lemmas.WalkValid3
+import Proofs.Lemmas.WalkYield
 import Proofs.Lemmas.GramXPath
 import Proofs.Lemmas.ParseGram
 import Proofs.Lemmas.ParseRender
@@ -870,5 +873,53 @@ theorem text_refines_spec (a : Arena) (h : wfb a = true) (env : Env) (henv : Env
 example : wfE sampleTree = true ∧ namesOk lexModel sampleTree = true ∧ sumSafe true (normCtx sampleTree) = true := by
   refine ⟨by decide +kernel, by decide +kernel, ?_⟩
   simp [sampleTree, normCtx, normBase, normCtxs, sumSafe, sumSafeL, ascending, sumArgAsc, Axis.isReverse]
+
+/-! ## the parse forest: what the Go evaluator actually walks
+
+The Go evaluator has no abstract syntax tree.  It walks the BSR forest of the generated GLL parser:
+`execContext` dispatches on the NAME of a node's nonterminal through the table `exec.contextFunctions`, a
+nonterminal without a handler evaluates only its first nonterminal child, and handlers pick children by
+position.  `Xsel/Walk.lean` transcribes that layer (handler table as a parameter; every partial
+operation an explicit `panic`), `Xsel/Deriv.lean` gives the derivation tree of the canonical spelling of
+an expression.  The theorems below close the gap between "the string" and "the tree the evaluator is
+specified on": the tree is a derivation of the REGENERATED grammar, its leaves are the tokens of the
+spelling, and walking it with the REGENERATED handler table computes the value of the abstract syntax.
+On every run the driver also walks the forest the real parser built for every generated string and
+compares (i) the result with `Exec`'s and (ii) the forest with `derivTop` of the model's parse. -/
+
+open Xsel.Walk in
+/-- **forest_is_derivation** — every node of the derivation tree of every expression is an instance of a
+    production of the table regenerated from the parser's slot tables -/
+theorem forest_is_derivation (e : Expr) : (derivTop e).valid Generated.productions = true :=
+  derivTop_valid e
+
+open Xsel.Walk in
+/-- **forest_yield_is_spelling** — its leaves, left to right, are the tokens of the canonical spelling -/
+theorem forest_yield_is_spelling (e : Expr) : (derivTop e).yield = (renderTop e).map (·.tok) :=
+  derivTop_yield e
+
+open Xsel.Walk in
+/-- **forest_walk_refines_eval** — walking that tree the way `exec.execContext` does, with the handler table
+    regenerated from exec/contextfn*.go, returns exactly the value (or the error) of the evaluator on
+    abstract syntax: precedence, associativity, paths after filter expressions, predicates, function calls as
+    steps and all node tests are evaluated as the grammar structures them, no sub-expression is dropped, and
+    no handler indexes a child that is not there.  `walkOk`: numbers have a canonical spelling, names of
+    variables and functions contain no colon. -/
+theorem forest_walk_refines_eval (a : Arena) (env : Env) (start : Nat) (e : Expr) (h : walkOk e = true) :
+    Walk.run Generated.handlers a env start (derivTop e) = ofEval (Model.run a env start (normCtx e)) :=
+  walk_refines_eval a env start e h
+
+open Xsel.Walk in
+/-- **forest_refines_spec** — string → forest → value: the forest of the canonical spelling of `e`, walked as
+    the Go code walks it, gives what the XPath 1.0 specification gives for `e` (up to the listing order of a
+    node-set, with the recorded `round` deviation), on every tree that satisfies the Cursor contract -/
+theorem forest_refines_spec (a : Arena) (h : wfb a = true) (env : Env) (henv : EnvOk a env)
+    (e : Expr) (hw : walkOk e = true) (start : Nat) (hs : start < a.size) (hsum : sumSafe true (normCtx e) = true) :
+    ∃ r, Walk.run Generated.handlers a env start (derivTop e) = ofEval r ∧
+      Res.Equiv r (Spec.runKF a env start (normCtx e)) :=
+  ⟨_, walk_refines_eval a env start e hw, Xsel.C02.run_refines_spec' a h env henv (normCtx e) start hs hsum⟩
+
+/-- the hypothesis of the forest theorems holds for the sample tree (non-vacuity) -/
+example : Xsel.Walk.walkOk sampleTree = true := by decide +kernel
 
 end Xsel.C08
